@@ -118,6 +118,7 @@ func (r *ReplicateMeteImpl) UpdateTaskDropCollectionMsg(ctx context.Context, msg
 		return msg.Base.IsReady(), nil
 	}
 	taskMsg.Base.ReadyChannels = lo.Union[string](taskMsg.Base.ReadyChannels, msg.Base.ReadyChannels)
+	taskMsgs[msg.Base.MsgID] = taskMsg
 	metaMsg, err := taskMsg.ConvertToMetaMsg()
 	if err != nil {
 		return false, err
@@ -188,6 +189,7 @@ func (r *ReplicateMeteImpl) UpdateTaskDropPartitionMsg(ctx context.Context, msg 
 		return msg.Base.IsReady(), nil
 	}
 	taskMsg.Base.ReadyChannels = lo.Union[string](taskMsg.Base.ReadyChannels, msg.Base.ReadyChannels)
+	taskMsgs[msg.Base.MsgID] = taskMsg
 	metaMsg, err := taskMsg.ConvertToMetaMsg()
 	if err != nil {
 		return false, err
@@ -233,6 +235,9 @@ func (r *ReplicateMeteImpl) RemoveTaskMsg(ctx context.Context, taskID string, ms
 	r.metaLock.Lock()
 	defer r.metaLock.Unlock()
 	if taskMsgs, ok := r.dropCollectionMsgs[taskID]; ok {
+		delete(taskMsgs, msgID)
+	}
+	if taskMsgs, ok := r.dropPartitionMsgs[taskID]; ok {
 		delete(taskMsgs, msgID)
 	}
 	return nil
